@@ -257,6 +257,10 @@ def run(ctx):
     except CheckerError as ex_:
         ctx.inst("C10.R9", "sites", None, "not decided: %s" % ex_, None)
 
+    # ---------------- R10 a comment inside a list / record / do-block is never taken for an expression
+    from rules import panics
+    panics.pratt_nonempty(ctx, "C10.R10", [core, ctx.cli, ctx.wasm], G)
+
     # ---------------- R1
     ctx.rule("C10.R1", "effective binding order (PRECEDENCE_TABLE + registration order in build_pratt_parser) equals the documented level list: every operator once, on its level, with its associativity", floor=30)
     ok, why, tail = builder_shape(core)
